@@ -6,12 +6,15 @@ use std::io;
 
 use self::header::read_header;
 use super::{LOWER_BOUND, Order, STATE_COUNT};
-use crate::io::reader::num::{read_u8, read_u32_le};
+use crate::{
+    codecs::alloc_zeroed,
+    io::reader::num::{read_u8, read_u32_le},
+};
 
 pub fn decode(mut src: &[u8]) -> io::Result<Vec<u8>> {
     let (order, _, uncompressed_size) = read_header(&mut src)?;
 
-    let mut dst = vec![0; uncompressed_size];
+    let mut dst = alloc_zeroed(uncompressed_size)?;
 
     // An empty input has no symbols and, thus, an empty frequency table, which cannot be read.
     if dst.is_empty() {
